@@ -180,7 +180,9 @@ def run(res, tier, seed):
             lines = l1b.default_lines(fmt, n_bridge, start, counts=l1b.words_bytes(l1b.pack_words(samples_by_line[0])))
         else:
             lines = l1b.default_lines(fmt, n, start, counts=lambda i: samples_by_line[i], switch=[(i // 3) % 3 for i in range(n)],
-                                      qual=[(1 << 31) if i == 5 else 0 for i in range(n)], numbers=numbers)
+                                      # (the line that lies outside the interval carries a fatal flag: it still belongs to the pass)
+                                      qual=[(1 << 31) if (i == 5 or (i == 0 and where == "start-1") or (i == n - 1 and where == "end+1")) else 0
+                                            for i in range(n)], numbers=numbers)
         ctx = dict(spacecraft=sc, fmt=fmt, interval=[str(iv[0]), str(iv[1])], position=where, first_line=str(start), lines=len(lines), seed=seed,
                    adjust_clock_drift=drift)
         try:
